@@ -1175,7 +1175,7 @@ class Repr(EnvironmentFilter):
         if not (self._cat_actions and has_action):
             cat_action_iter = None
         else:
-            cat_action_iter = pipes.EncodeCatRows(self._cat_context).filter(i['action'] for i in next(tees))
+            cat_action_iter = pipes.EncodeCatRows(self._cat_actions).filter(i['action'] for i in next(tees))
 
         reward_targets = []
         if has_rewards   and callable(first['rewards'])  : reward_targets.append('rewards')
@@ -1193,6 +1193,10 @@ class Repr(EnvironmentFilter):
 
             if cat_action_iter:
                 new['action'] = next(cat_action_iter)
+
+                #the logged action has to remain the same member of the (re-represented) action set
+                if cat_actions_iter and old['action'] in old['actions']:
+                    new['action'] = new['actions'][old['actions'].index(old['action'])]
 
             actions_changed = cat_actions_iter and new['actions'] != old['actions']
 
